@@ -19,6 +19,8 @@ var c05Exprs = []string{
 	"x = 2", "l[0] = 2", "o.a = 2", "ao[k] = 1", "ao[k] += 1", "an = 1", "an.b = 1", "(ao[k] = 1)",
 	"x + 1", `x + "s"`, "-x", "!x", "?x", "x as str", "an as int", "ao as { a: int }", "[x, k]", "[]", "new { a: x }", "new { ? }",
 	"if x > 1 { 1 } else { 2 }", "match x { 1 => 1, _ => 2 }", "try { 1 } catch e { 2 }", "{ let q = 1; q }",
+	// calls whose callee is not a function: an `any`-typed place, a list of `any`, an option, a value
+	"an()", "an(1, 2)", "anl()", "anl[0]()", "x()", "l()", "o.a()", "none()", "(an as fn() -> null)()", "spawn an()", "spawn anl()", "f()()", "nope()()",
 	"fn(a: int) -> int { a }", "fn() { ao[k] = 2; }", "return", "return 1", "break", "continue", `throw("t")`, "0..x", "x..k", "spawn g()", "spawn f(an)",
 }
 
@@ -64,7 +66,7 @@ func c05CtxProgram(idx int) (string, []string) {
 	inLoop, ctx, e := d[0] == 1, c05Ctxs[d[1]], c05Exprs[d[2]]
 	stmt := strings.ReplaceAll(ctx.text, "%s", e)
 	var b strings.Builder
-	b.WriteString("fn f(a: int) -> int { a }\nfn g() { }\nfn main() {\n    let x = 1;\n    let k = \"k\";\n    let l = [1, 2];\n    let o = new { a: 1 };\n    let ao = new { ? };\n    let an: any = 1;\n")
+	b.WriteString("fn f(a: int) -> int { a }\nfn g() { }\nfn main() {\n    let x = 1;\n    let k = \"k\";\n    let l = [1, 2];\n    let o = new { a: 1 };\n    let ao = new { ? };\n    let an: any = 1;\n    let anl: [any] = [1];\n")
 	if inLoop {
 		b.WriteString("    loop {\n    " + stmt + "        break;\n    }\n")
 	} else {
@@ -88,7 +90,7 @@ func c05CtxRun(idx int, r *Result) {
 	inLoop, ctx, e := d[0] == 1, c05Ctxs[d[1]], c05Exprs[d[2]]
 	stmt := strings.ReplaceAll(ctx.text, "%s", e)
 	var b strings.Builder
-	b.WriteString("fn f(a: int) -> int { a }\nfn g() { }\nfn main() {\n    let x = 1;\n    let k = \"k\";\n    let l = [1, 2];\n    let o = new { a: 1 };\n    let ao = new { ? };\n    let an: any = 1;\n")
+	b.WriteString("fn f(a: int) -> int { a }\nfn g() { }\nfn main() {\n    let x = 1;\n    let k = \"k\";\n    let l = [1, 2];\n    let o = new { a: 1 };\n    let ao = new { ? };\n    let an: any = 1;\n    let anl: [any] = [1];\n")
 	if inLoop {
 		b.WriteString("    loop {\n    " + stmt + "        break;\n    }\n")
 	} else {
